@@ -223,17 +223,41 @@ def run(tier, seed):
     if min(kinds.get("fin", 0), kinds.get("inf", 0), kinds.get("nan", 0)) < 10 or n_rec_rej < 100 or not hazards:
         core.die("vacuous parse model: accepted kinds %r, rejected records %d, hazards %d" % (kinds, n_rec_rej, len(hazards)))
 
-    # ---- parse cases -> calls
-    table, meta = [], []       # meta: (desc, want, model_val, detail)
+    # ---- parse cases -> calls, replayed chunk by chunk (cases are kept compact; descriptors are built for disagreements only)
+    stats = {"symbol_strings": 0, "accepted_symbol_strings": 0, "hazard_symbol_strings": 0, "instantiations": 0,
+             "calls": 0, "calls_from_spec_cases": 0, "disagreements": 0, "chunks": 0}
     seen = set()
-    stats = {"symbol_strings": 0, "accepted_symbol_strings": 0, "hazard_symbol_strings": 0, "instantiations": 0}
-    n_inst = 1 if tier == "quick" else 2
+    table, meta = [], []       # meta[i] = (case, variant, want, detail) ; case = (base descriptor, model_val, syms)
+    nontriv = [0]
+    keep = {"acc": [], "rej": [], "samples": []}
+    CHUNK = 400000
 
-    def add_case(src, fam, rid, mode, syms, ref, bytes_too):
+    def flush():
+        if not table:
+            return
+        stats["chunks"] += 1
+        obs = L.run_table(bparse, table, "parse%d" % stats["chunks"], timeout=1800)
+        for (case, var, want, detail), got, call in zip(meta, obs, table):
+            base, mv, syms = case
+            oc = judge_parse(want, got, mv)
+            if oc:
+                stats["disagreements"] += 1
+                rep.disagree(dict(base, variant=var), oc, dict(detail, syms=list(syms) if syms else None, function=call[0], want=want, got=got, model=mv))
+            elif want.startswith("f:") and len(keep["acc"]) < 200:
+                keep["acc"].append((call, got))
+            elif want == "E:ValueError" and len(keep["rej"]) < 200:
+                keep["rej"].append((call, got))
+        for k in rng.sample(range(len(table)), 2):
+            if len(keep["samples"]) < 4:
+                keep["samples"].append({"call": [table[k][0], meta[k][3]], "syms": list(meta[k][0][2] or ()), "want": meta[k][2], "got": obs[k]})
+        stats["calls"] += len(table)
+        del table[:], meta[:]
+        seen.clear()
+
+    def add_case(src, fam, rid, mode, syms, ref, bytes_too, n_inst):
         hz = hazards.get((fam, rid, mode, tuple(syms)))
         want = L.denote(ref)
-        model_val = None
-        model = "agrees"
+        model_val, model = None, "agrees"
         if hz is not None:
             model = "accepts" if hz["acc"] else "rejects"
             mv = L.denote(hz)
@@ -244,8 +268,11 @@ def run(tier, seed):
         base = {"part": "parse", "src": src, "mode": mode, "want": "E:ValueError" if not ref["acc"] else ref["kind"], "model": model,
                 "und_after_exp_sign": feat["und_after_exp_sign"], "gs_in_outer_space": feat["gs_in_outer_space"],
                 "non_ascii": feat["non_ascii"], "has_underscore": feat["has_underscore"]}
+        case = (base, model_val, syms)
+        bcase = (dict(base, mode="bytes"), model_val, syms) if mode == "str" else case
         stats["symbol_strings"] += 1
         stats["accepted_symbol_strings"] += bool(ref["acc"])
+        nt = len(syms) >= 2 and any(s in L.DIGITS or s in L.LETTERS for s in syms)
         has_choice = any(s in ("e", "sp", "gs", "x", "us", "ux") or s in L.LETTERS or s.startswith("u") for s in syms)
         texts = [L.instantiate(syms)]
         if has_choice:
@@ -261,13 +288,11 @@ def run(tier, seed):
                     key = (fn, text)
                     if key not in seen:
                         seen.add(key)
+                        nontriv[0] += nt
                         table.append([fn, text])
-                        meta.append((dict(base, variant=var), want_o, model_val, {"syms": list(syms), "input": text}))
-            if mode == "bytes" or bytes_too:
-                if mode == "str" and not feat["non_ascii"]:
-                    bt = text.encode("ascii")
-                else:
-                    bt = L.to_bytes(text, syms, r2)
+                        meta.append((case, var, want_o, {"input": text}))
+            if mode == "bytes" or (bytes_too and not feat["non_ascii"]):
+                bt = text.encode("ascii") if mode == "str" else L.to_bytes(text, syms, r2)
                 p = L.py_float(bt)
                 if p != want_o:
                     rep.spec_drift("FloatParse.Ref vs CPython float(bytes)", {"syms": list(syms), "bytes": bt.hex(), "spec": want_o, "python": p})
@@ -275,20 +300,35 @@ def run(tier, seed):
                     key = (fn, enc, bt)
                     if key not in seen:
                         seen.add(key)
+                        nontriv[0] += nt
                         table.append([fn, [enc, bt.hex()]])
-                        meta.append((dict(base, variant=var, mode="bytes"), want_o, model_val, {"syms": list(syms), "input_hex": bt.hex(), "as": enc}))
+                        meta.append((bcase, var, want_o, {"input_hex": bt.hex(), "as": enc}))
+        if len(table) >= CHUNK:
+            flush()
 
     reject = {"acc": False}
-    for fam in fams:
+    enum_seen = 0
+    for k, fam in enumerate(fams):
         both = len(L.FAMILIES[fam][2]) == 2
         for mode, syms in L.family_strings(fam):
             ref = accepted.get((fam, mode, syms), reject)
-            # an ASCII-only family is enumerated in mode "str" only: Transform is the identity in both modes there,
+            if L.covered_by(fams[:k], mode, syms):
+                # same (mode, string) already replayed from an earlier family: the two families must agree on it
+                other = next(f for f in fams[:k] if L.covered_by([f], mode, syms))
+                m2 = mode if mode in L.FAMILIES[other][2] else "str"
+                if accepted.get((other, m2, syms), reject) != ref:
+                    core.die("families %s and %s disagree on %r" % (fam, other, syms))
+                enum_seen += 1
+                continue
+            # a family enumerated in mode "str" only: for its ASCII-only strings Transform is the identity in both modes,
             # so the verdict holds for the bytes image as well (P guards this)
-            add_case("enum:" + fam, fam, 0, mode, syms, ref, bytes_too=not both)
+            add_case("enum:" + fam, fam, 0, mode, syms, ref, not both, 1)
+    stats["symbol_strings_shared_between_families"] = enum_seen
     for r in recs:
-        add_case("record", "rec", r["id"], r["mode"], tuple(r["s"]), recverdict[r["id"]], bytes_too=False)
-    n_parse_spec = len(table)
+        if L.covered_by(fams, r["mode"], tuple(r["s"])):
+            continue
+        add_case("record", "rec", r["id"], r["mode"], tuple(r["s"]), recverdict[r["id"]], False, 2 if tier == "quick" else 3)
+    stats["calls_from_spec_cases"] = stats["calls"] + len(table)
 
     # float(x) of other objects: outside the spec, compared with CPython only
     zoo = ["None", "3", "True", "10**400", "-(2**1024)", "1.5", "FloatSub(2.5)", "StrSub(' 1_0 ')", "StrSub('1e+_1')", "BytesSub(b'2.5')",
@@ -303,33 +343,23 @@ def run(tier, seed):
             want_o = L.py_float(eval(z, ns))
         for fn in ("f_obj", "f_cd"):
             table.append([fn, ["py", z]])
-            meta.append(({"part": "parse", "src": "zoo", "variant": fn, "want": L.oclass(want_o) if want_o.startswith("E:") else "value",
-                          "model": "none", "arg": z}, want_o, None, {"arg": z}))
-    typed_none = [("f_str", "str"), ("f_bytes", "bytes"), ("f_ba", "bytearray")]
-    for fn, var in typed_none:
+            meta.append((({"part": "parse", "src": "zoo", "want": want_o if want_o.startswith("E:") else "value", "model": "none", "arg": z},
+                          None, None), fn, want_o, {"arg": z}))
+    for fn, var in [("f_str", "str"), ("f_bytes", "bytes"), ("f_ba", "bytearray")]:
         table.append([fn, ["py", "None"]])
-        meta.append(({"part": "parse", "src": "zoo", "variant": var, "want": "E:TypeError", "model": "none", "arg": "None"}, "E:TypeError", None, {"arg": "None"}))
-
-    pobs = L.run_table(bparse, table, "parse", timeout=1500)
-    n_parse_bad = 0
-    for (desc, want, mv, detail), got, call in zip(meta, pobs, table):
-        oc = judge_parse(want, got, mv)
-        if oc:
-            n_parse_bad += 1
-            rep.disagree(desc, oc, dict(detail, function=call[0], want=want, got=got, model=mv))
+        meta.append((({"part": "parse", "src": "zoo", "want": "E:TypeError", "model": "none", "arg": "None"}, None, None), var, "E:TypeError", {"arg": "None"}))
+    flush()
 
     # binding demonstration (parse): corrupted expectations must be rejected
-    acc_idx = [i for i, m in enumerate(meta) if m[1].startswith("f:") and pobs[i] == m[1]][:200]
-    rej_idx = [i for i, m in enumerate(meta) if m[1] == "E:ValueError" and pobs[i] == m[1]][:200]
-    if len(acc_idx) < 50 or len(rej_idx) < 50:
-        core.die("binding self-test: too few agreeing parse cases (%d accepted, %d rejected)" % (len(acc_idx), len(rej_idx)))
-    for i in acc_idx:
-        other = "f:0x1.0000000000000p+0" if pobs[i] != "f:0x1.0000000000000p+0" else "f:0x1.0000000000000p+1"
-        if judge_parse("E:ValueError", pobs[i], None) != "accepted" or judge_parse(other, pobs[i], None) != "wrong-value":
-            core.die("binding self-test failed (accepted case %r)" % (table[i],))
-    for i in rej_idx:
-        if judge_parse("f:0x1.0000000000000p+0", pobs[i], None) != "rejected:ValueError":
-            core.die("binding self-test failed (rejected case %r)" % (table[i],))
+    if len(keep["acc"]) < 50 or len(keep["rej"]) < 50:
+        core.die("binding self-test: too few agreeing parse cases (%d accepted, %d rejected)" % (len(keep["acc"]), len(keep["rej"])))
+    for call, got in keep["acc"]:
+        other = "f:0x1.0000000000000p+0" if got != "f:0x1.0000000000000p+0" else "f:0x1.0000000000000p+1"
+        if judge_parse("E:ValueError", got, None) != "accepted" or judge_parse(other, got, None) != "wrong-value":
+            core.die("binding self-test failed (accepted case %r)" % (call,))
+    for call, got in keep["rej"]:
+        if judge_parse("f:0x1.0000000000000p+0", got, None) != "rejected:ValueError":
+            core.die("binding self-test failed (rejected case %r)" % (call,))
 
     # ---- operators: the XReal cells
     otable, ometa = [], []
@@ -433,17 +463,15 @@ def run(tier, seed):
             core.die("binding self-test failed (exception, %r)" % (otable[i],))
 
     # ---- evidence
-    nontriv_parse = len({(c[0], json.dumps(c[1])) for c, m in zip(table, meta)
-                         if m[0].get("src") != "zoo" and len(m[3].get("syms", ())) >= 2 and any(s in L.DIGITS or s in L.LETTERS for s in m[3]["syms"])})
+    nontriv_parse = nontriv[0]
     nontriv_ops = len({json.dumps(c) for c, m in zip(otable, ometa) if not all(a[1] in ("0x0.0p+0", "0x1.0000000000000p+0") for a in c[1:])})
-    samp = [{"call": [table[i][0], meta[i][3]], "want": meta[i][1], "got": pobs[i]} for i in rng.sample(range(n_parse_spec), 3)]
+    samp = keep["samples"][:3]
     samp += [{"call": otable[i], "want": ometa[i][1], "got": oobs[i]} for i in rng.sample(range(len(otable)), 3)]
     cov.update({
         "states": fp.generated + xr.generated, "distinct_states": fp.distinct + xr.distinct, "transitions": fp.generated + xr.generated,
-        "traces_validated_against_impl": len(table) + len(otable), "evaluations": len(table) + len(otable),
+        "traces_validated_against_impl": stats["calls"] + len(otable), "evaluations": stats["calls"] + len(otable),
         "distinct_nontrivial": nontriv_parse + nontriv_ops, "exhaustive": True,
-        "parse": dict(stats, families=fams, records=len(recs), accepted_by_kind=kinds, calls=len(table), calls_from_spec_cases=n_parse_spec,
-                      disagreements=n_parse_bad),
+        "parse": dict(stats, families=fams, records=len(recs), accepted_by_kind=kinds),
         "ops": {"grid_cells": len(cells), "grid_cells_not_decided_by_spec": n_ix, "grid_cells_where_transcription_deviates": n_hz,
                 "grid_calls": n_grid_calls, "special_random_calls_vs_cpython_only": len(otable) - n_grid_calls,
                 "calls_in_deviating_cells_by_cause": dev_seen, "disagreements": n_ops_bad},
